@@ -168,6 +168,26 @@ def malformed_reqs(uni):
     return out
 
 
+def spelling_reqs(uni):
+    """
+    Hex is case-insensitive to a decoder: a filter whose ids / authors are spelled with upper-case digits names the same
+    32-byte values (the relay lower-cases them), so it must be answered like its lower-case spelling.  Every assignment of
+    {lower, upper} to the elements of multi-value ids / authors lists (the order a backend sorts them in must not depend
+    on the spelling), alone and with a kind.  Yields (concrete filter list, abstract filter list); all clauses are judged.
+    """
+    lists = [("authors", x) for x in (["A", "B"], ["C", "A"], ["C", "D"], ["D", "C"], ["A", "C", "D"], ["B", "C"], ["C"])] + \
+            [("ids", x) for x in (["q1", "q7"], ["q7", "q8"], ["q5", "r1", "q2"], ["q3", "q6", "q9"], ["q2"])]
+    out = []
+    for key, syms in lists:
+        for mask in range(1, 2 ** len(syms)):
+            for extra in ({}, {"kinds": [1]}, {"since": 9}):
+                ab = dict({key: list(syms)}, **extra)
+                conc = uni.conc_filter(ab)
+                conc[key] = [v.upper() if mask >> k & 1 else v for k, v in enumerate(conc[key])]
+                out.append(([conc], [ab]))
+    return out
+
+
 def build_scripts(histories, reqs, per_script=150):
     scripts = []
     for h in histories:
@@ -355,6 +375,10 @@ def _run(prop, tier, seed, backends, limited):
             n_malformed = len(mal)
             pre = tuple(x for s_ in HISTORIES[0] for x in (("submit", s_), ("drain",)))
             sc = sc + [pre + tuple(("rawquery", c, a) for c, a in mal[b:b + 150]) for b in range(0, len(mal), 150)]
+        if prop == "C02" and not limited and pal == palettes[0]:
+            spell = spelling_reqs(uni)
+            sc = sc + [tuple(x for s_ in h for x in (("submit", s_), ("drain",))) + tuple(("rawquery", c, a) for c, a in spell)
+                       for h in histories[:2]]
         for backend in backends:
             jobs.append({"uni": uni, "backend": backend, "scripts": sc, "palette": pal, "max_limit": max_limit})
     import os
